@@ -122,6 +122,11 @@ pub struct Case {
     /// the order wait / create / recycle, 2 in the order recycle / create / wait, 3 config()
     #[serde(default)]
     pub via: u8,
+    /// instead of the history: on a *real-time* tokio runtime, exhaust the pool and make one
+    /// zero-wait call; its first poll must already be the answer (the virtual clock sits on
+    /// millisecond boundaries, where a zero-length timer is due at once and hides a wait)
+    #[serde(default)]
+    pub realtime_zero: bool,
 }
 
 // ------------------------------------------------------------------ world
@@ -808,6 +813,101 @@ struct Outcome {
     nontrivial: bool,
     trace: Vec<String>,
     step: usize,
+}
+
+/// see `Case::realtime_zero`
+fn run_realtime_zero(case: &Case) -> Outcome {
+    let mut out = Outcome {
+        violation: None,
+        pair: None,
+        other_object: false,
+        closed: false,
+        labels: vec!["realtime-zero-wait".into()],
+        nontrivial: true,
+        trace: vec![],
+        step: 0,
+    };
+    let rt = match tokio::runtime::Builder::new_current_thread().enable_time().build() {
+        Ok(rt) => rt,
+        Err(_) => return out,
+    };
+    let n = case.max_size.max(1) as usize;
+    let per_call = matches!(case.pool_t.wait, Tmo::Zero) == false;
+    let waker = Waker::from(WakeFlag::new());
+    let mut cx = Context::from_waker(&waker);
+    let r = catch_unwind(AssertUnwindSafe(|| {
+        let _ctx = rt.enter();
+        if case.unmanaged {
+            let pool: unmanaged::Pool<u32> = unmanaged::Pool::from_config(&unmanaged::PoolConfig {
+                max_size: n,
+                timeout: if per_call { None } else { Some(Duration::ZERO) },
+                runtime: Some(Runtime::Tokio1),
+            });
+            // empty pool: nothing to get
+            let mut fut: Pin<Box<dyn Future<Output = Result<unmanaged::Object<u32>, unmanaged::PoolError>>>> = if per_call {
+                let p = pool.clone();
+                Box::pin(async move { p.timeout_get(Some(Duration::ZERO)).await })
+            } else {
+                let p = pool.clone();
+                Box::pin(async move { p.get().await })
+            };
+            match fut.as_mut().poll(&mut cx) {
+                Poll::Ready(Err(unmanaged::PoolError::Timeout)) => None,
+                Poll::Ready(other) => Some(format!("unmanaged zero-wait get on an empty pool answered {:?}", other.map(|_| "an object"))),
+                Poll::Pending => Some("unmanaged get with a zero timeout on an empty pool is pending after its first poll".to_string()),
+            }
+        } else {
+            let world = Arc::new(World(Mutex::new(W {
+                log: vec![],
+                create: vec![],
+                recycle: vec![],
+                n_create: 0,
+                n_recycle: 0,
+                next_obj: 0,
+                destroyed: vec![],
+                detached: vec![],
+                gates: vec![],
+            })));
+            let mut b = managed::Pool::<Mgr>::builder(Mgr { world }).max_size(n).runtime(Runtime::Tokio1);
+            if !per_call {
+                b = b.wait_timeout(Some(Duration::ZERO));
+            }
+            let pool = match b.build() {
+                Ok(p) => p,
+                Err(e) => return Some(format!("build failed: {:?}", e)),
+            };
+            let mut held = vec![];
+            for _ in 0..n {
+                // with a zero pool-level wait these still succeed: slots are free
+                match rt.block_on(pool.get()) {
+                    Ok(o) => held.push(o),
+                    Err(e) => return Some(format!("get on a pool with free slots failed: {:?}", e)),
+                }
+            }
+            let p = pool.clone();
+            let mut fut: GetFut = if per_call {
+                let t = Timeouts { wait: Some(Duration::ZERO), create: None, recycle: None };
+                Box::pin(async move { p.timeout_get(&t).await })
+            } else {
+                Box::pin(async move { p.get().await })
+            };
+            let r = match fut.as_mut().poll(&mut cx) {
+                Poll::Ready(Err(PoolError::Timeout(TimeoutType::Wait))) => None,
+                Poll::Ready(Ok(_)) => Some("zero-wait get on an exhausted pool returned an object".to_string()),
+                Poll::Ready(Err(e)) => Some(format!("zero-wait get on an exhausted pool answered {:?}", e)),
+                Poll::Pending => Some("get with a zero wait timeout on an exhausted pool is pending after its first poll: it waits".to_string()),
+            };
+            drop(fut);
+            drop(held);
+            r
+        }
+    }));
+    match r {
+        Ok(None) => {}
+        Ok(Some(detail)) => out.violation = Some(("zero-wait-get-waits".into(), detail)),
+        Err(p) => out.violation = Some(("panic".into(), format!("a pool call panicked: {:?}", classify_panic(p)))),
+    }
+    out
 }
 
 fn run_managed(case: &Case) -> Outcome {
@@ -1570,9 +1670,10 @@ pub fn case(thorough: bool) -> BoxedStrategy<Case> {
                 outv(),
                 prop::collection::vec(step(runtime), 1..=maxlen),
                 0u8..4,
+                prop::bool::weighted(0.01),
             )
         })
-        .prop_map(|(unmanaged, runtime, max_size, pool_t, create, recycle, steps, via)| Case {
+        .prop_map(|(unmanaged, runtime, max_size, pool_t, create, recycle, steps, via, realtime_zero)| Case {
             unmanaged,
             runtime,
             max_size,
@@ -1581,6 +1682,7 @@ pub fn case(thorough: bool) -> BoxedStrategy<Case> {
             recycle,
             steps,
             via,
+            realtime_zero,
         })
         .boxed()
 }
@@ -1662,7 +1764,7 @@ pub fn decode(data: &[u8]) -> arbitrary::Result<Case> {
     if steps.is_empty() {
         return Err(arbitrary::Error::NotEnoughData);
     }
-    Ok(Case { unmanaged, runtime, max_size, pool_t, create, recycle, steps, via: flags >> 6 })
+    Ok(Case { unmanaged, runtime, max_size, pool_t, create, recycle, steps, via: flags >> 6, realtime_zero: false })
 }
 
 pub struct Tsim;
@@ -1702,7 +1804,13 @@ impl Engine for Tsim {
     }
 
     fn run(ctx: &Ctx, case: &Case) -> Report {
-        let mut o = if case.unmanaged { run_unmanaged(case) } else { run_managed(case) };
+        let mut o = if case.realtime_zero {
+            run_realtime_zero(case)
+        } else if case.unmanaged {
+            run_unmanaged(case)
+        } else {
+            run_managed(case)
+        };
         if let Some((oracle, _)) = &o.violation {
             if !relevant(&ctx.prop, oracle, &o) {
                 o.labels.push(format!("outside-this-property:{}", oracle));
